@@ -443,6 +443,12 @@ PROPS["C13"]["assumptions"] = [a.replace("is assumed of the pre-state: the const
 PROPS["C18"]["verus"].append({"unit": U5, "fns": ["lemma_sk_step", "lemma_catchup"]})
 PROPS["C18"]["level_text"] += " The replacement clause is proved as well (the supplied iterator is any well-behaved finite iterator, its prophetic content `key_values.remaining()` is the supplied state): whenever the copy is changed, its key set afterwards is exactly the set of supplied keys, for a key supplied (possibly several times) or present before the entry kept is never older than a supplied one, and every entry is the old one or a supplied one verbatim (catchup_keys; two loop invariants over the generic iterator and the set of keys to remove, lemma_catchup)."
 PROPS["C18"]["level_note"] = "All callees are now under contract (set_versioned_value and node_state_mut_or_init through the Entry idiom R15, get_or_create_sampling_window as a stub restating U4). Assumed: `key_values_including_deleted().map(..).collect()` yields the copy's key set (ext_key_set), iterating a HashSet visits each element (ext_set_to_vec), the supplied iterator obeys the iterator laws (premise). The bounded driver c18_catchup still runs the real function over the property's list of copies x supplied states."
+PROPS["C17"]["native"] = list(PROPS["C17"].get("native", [])) + [{"test": "verif_c17_select", "pairs": ["select_nodes_for_gossip"]}]
+PROPS["C17"]["level_note"] += " A bounded native driver (c17_select: the real function with a seeded StdRng over every pool configuration of a 7-address universe) runs next to the proof, so that a change the extracted-text unit cannot compile (exit 2 there) still meets a check."
+PROPS["C02"]["verus"].append({"unit": U5, "fns": ["Chitchat::reset_node_state_if_update", "lemma_catchup", "lemma_sk_step"]})
+PROPS["C02"]["native"].append({"test": "verif_c18_catchup", "pairs": ["Chitchat::reset_node_state_if_update"]})
+PROPS["C02"]["level_text"] += " The catch-up entry point is part of the local lemmas: a fetched state older than the copy's GC watermark (or not newer than the copy) leaves the copy untouched - it cannot bring back entries the copy has already seen collected."
+PROPS["C02"]["assumptions"] += [A_U5, A_LRU]
 U2_CODEC = ["ChitchatId::serialize", "ChitchatId::serialized_len", "Heartbeat::serialize", "Heartbeat::serialized_len", "NodeDigest::serialize",
             "NodeDigest::serialized_len", "alloc::string::String::serialize", "alloc::string::String::serialized_len",
             "DeletionStatusMutation::serialize", "DeletionStatusMutation::serialized_len", "KeyValueMutationRef::serialize",
